@@ -334,6 +334,12 @@ func (e *Enc) typeFactsRec(t types.Type, L []string, st *State, fs *[]string) in
 		return 1
 	case *types.Pointer:
 		*fs = append(*fs, m.ile(z, L[0]), m.ilt(L[0], st.Alloc), m.ile(z, L[1]), implies(eq(L[0], z), eq(L[1], z)), e.notGhost(L[0]))
+		if id := e.standaloneTypeID(u.Elem()); id != 0 {
+			// a struct type that is never stored by value inside another object: a pointer to it points at the start
+			// of an allocation of exactly that type, so pointers to different such types never overlap
+			e.prelude("atype", "(declare-fun atype ("+m.smtSort(SI)+") "+m.smtSort(SI)+")")
+			*fs = append(*fs, implies(not(eq(L[0], z)), and(eq(L[1], z), eq("(atype "+L[0]+")", m.ilit(int64(id))))))
+		}
 		return 2
 	case *types.Slice:
 		*fs = append(*fs, m.ile(z, L[0]), m.ilt(L[0], st.Alloc), m.ile(z, L[1]), m.ile(z, L[2]), m.ile(L[2], L[3]),
@@ -1041,6 +1047,25 @@ func (e *Enc) newObj(st *State, prefix string) string {
 	obj := e.def(e.fresh(prefix+"_obj"), SI, st.Alloc)
 	st.Alloc = e.def(e.fresh("alloc"), SI, e.M.iadd(st.Alloc, e.M.ilit(1)))
 	return obj
+}
+
+// standaloneTypeID: non-zero for a package-level named struct type that no loaded package stores by value inside
+// another value (as a struct field, an array element or a slice element, also of locally declared types and of
+// variables and signatures). Memory of such a type only ever exists as a whole allocation of its own.
+func (e *Enc) standaloneTypeID(t types.Type) int {
+	n, ok := types.Unalias(t).(*types.Named)
+	if !ok || n.Obj().Pkg() == nil || n.Obj().Parent() != n.Obj().Pkg().Scope() || n.TypeArgs() != nil || n.TypeParams() != nil {
+		return 0
+	}
+	if _, isStruct := n.Underlying().(*types.Struct); !isStruct {
+		return 0
+	}
+	emb := e.P.embeddedTypes()
+	key := n.Obj().Pkg().Path() + "." + n.Obj().Name()
+	if emb[key] {
+		return 0
+	}
+	return e.typeID(t) + 1000
 }
 
 // zeroArr is an array whose elements are all the zero value of sort s.
